@@ -39,6 +39,23 @@ def _install_site_stub() -> None:
     DG.get_cleavage_sites = stub
 
 
+def _rule(i: int, sites) -> str:
+    """Symbolic runs: the rule is the name 'R<i>' resolved by stub S3.  Native replays (VF_NOSTUB): a real regular expression
+    that cuts the all-distinct-letters protein at exactly these positions (site p>0 = a look-behind for the letter at p-1, site 0 = a
+    look-ahead for the first letter; all zero-width, so one rule can cut at 0 and 1), so the real regex site finder is exercised."""
+    import os
+    if not os.environ.get("VF_NOSTUB"):
+        _SITES_BY_RULE[f"R{i}"] = tuple(sites)
+        return f"R{i}"
+    parts = []
+    after = "".join(_PROTEIN[p - 1] for p in sorted(set(sites)) if p > 0)
+    if after:
+        parts.append(f"(?<=[{after}])")
+    if 0 in sites and _PROTEIN:
+        parts.append(f"(?={_PROTEIN[0]})")
+    return "|".join(parts) if parts else "(?!)"
+
+
 def _fail(**kw) -> bool:
     global LAST
     LAST = kw
@@ -155,10 +172,7 @@ def o3_digest(n: int, rules: Tuple[Tuple[int, ...], ...], mn_none: bool, mx_none
     """digest()/digest_from_config() with return_type='span' on an unmodified protein; several rules = union."""
     global _PROTEIN
     _PROTEIN = _LETTERS[:n]
-    names = []
-    for i, r in enumerate(rules):
-        _SITES_BY_RULE[f"R{i}"] = tuple(r)
-        names.append(f"R{i}")
+    names = [_rule(i, r) for i, r in enumerate(rules)]
     mn_a = None if mn_none else mn
     mx_a = None if mx_none else mx
     if via_config:
@@ -206,16 +220,33 @@ def o4_sequential(n: int, sites1: Tuple[int, ...], sites2: Tuple[int, ...], mn_n
     """sequential_digest with two complete zero-missed stages == digest with both rules (as sets of (s,e))."""
     global _PROTEIN
     _PROTEIN = _LETTERS[:n]
-    _SITES_BY_RULE["R0"] = tuple(sites1)
-    _SITES_BY_RULE["R1"] = tuple(sites2)
+    r0, r1 = _rule(0, sites1), _rule(1, sites2)
     mn_a = None if mn_none else mn
     mx_a = None if mx_none else mx
-    cfgs = [DG.EnzymeConfig(regex="R0", missed_cleavages=0, semi_enzymatic=False, complete_digestion=True),
-            DG.EnzymeConfig(regex="R1", missed_cleavages=0, semi_enzymatic=False, complete_digestion=True)]
+    cfgs = [DG.EnzymeConfig(regex=r0, missed_cleavages=0, semi_enzymatic=False, complete_digestion=True),
+            DG.EnzymeConfig(regex=r1, missed_cleavages=0, semi_enzymatic=False, complete_digestion=True)]
     seq = list(DG.sequential_digest(_PROTEIN, cfgs, min_len=mn_a, max_len=mx_a, return_type="span"))
-    sim = list(DG.digest(_PROTEIN, ["R0", "R1"], 0, False, mn_a, mx_a, True, "span", True))
+    sim = list(DG.digest(_PROTEIN, [r0, r1], 0, False, mn_a, mx_a, True, "span", True))
     a = sorted((int(g[0]), int(g[1])) for g in seq)
     b = sorted((int(g[0]), int(g[1])) for g in sim)
     if a != b:
         return _fail(why="sequential != simultaneous", sequential=a, simultaneous=b)
+    return True
+
+
+def o4_sequential3(n: int, stages: Tuple[Tuple[int, ...], ...], mn_none: bool, mx_none: bool, mn: int, mx: int, excl=()) -> bool:
+    """sequential_digest with any number of complete zero-missed stages == digest with all rules at once: the length bounds
+    apply to the final peptides only (an over-long intermediate fragment is still cut by the later stages)."""
+    global _PROTEIN
+    _PROTEIN = _LETTERS[:n]
+    names = [_rule(i, st) for i, st in enumerate(stages)]
+    mn_a = None if mn_none else mn
+    mx_a = None if mx_none else mx
+    cfgs = [DG.EnzymeConfig(regex=r, missed_cleavages=0, semi_enzymatic=False, complete_digestion=True) for r in names]
+    seq = list(DG.sequential_digest(_PROTEIN, cfgs, min_len=mn_a, max_len=mx_a, return_type="span"))
+    sim = list(DG.digest(_PROTEIN, names, 0, False, mn_a, mx_a, True, "span", True))
+    a = sorted((int(g[0]), int(g[1])) for g in seq)
+    b = sorted((int(g[0]), int(g[1])) for g in sim)
+    if a != b:
+        return _fail(why="sequential != simultaneous", stages=[list(x) for x in stages], sequential=a, simultaneous=b)
     return True
